@@ -916,6 +916,9 @@ func Run(cfg Cfg, rep Reporter) {
 	}
 	for step := 0; step < cfg.Steps && !sm.stopped; step++ {
 		s := sm.sess[sm.rng.Intn(len(sm.sess))]
+		if cfg.Sleeper && len(sm.sess) > 1 && s == sm.sess[len(sm.sess)-1] {
+			continue
+		}
 		sm.step(s)
 	}
 	if sm.stopped {
